@@ -23,7 +23,7 @@ PROPS = {
         "level": "model_checking",
         "engine": "explore (bounded-exhaustive enumeration)",
         "technique": "bounded-exhaustive enumeration of raw wire envelopes, pairs, batch compositions and handler completion orders against real server sessions on 5 transport configurations, with a per-id response counter over the raw output",
-        "claim": "16 envelope kinds x 11 id tokens (incl. 2^53+1, int64 min/max, empty and non-ASCII strings) as single messages; pairs of envelopes with distinct/equal/type-differing ids; every batch composition of <=3 members over {call, unknown-method call, gated call, notification} with every release order of the gated handlers (2025-03-26); two concurrent gated calls in both completion orders; a duplicate in-flight id; a peer cancellation (notifications/cancelled) of an in-flight call, alone, followed by another call, and inside 2025-03-26 batches with every release order (the cancelled call is still answered exactly once and its batch still completes): on the in-memory pipe (stdio framing), the streamable handler stateful/stateless x SSE/JSON and the legacy HTTP+SSE handler (single messages only), every call gets exactly one response with the identical id token and the mandated class (result, -32601, -32602, -32600 or an HTTP 4xx pre-validation), notifications get none, and a final ping is still answered",
+        "claim": "16 envelope kinds x 11 id tokens (incl. 2^53+1, int64 min/max, empty and non-ASCII strings) as single messages; pairs of envelopes with distinct/equal/type-differing ids; every batch composition of <=3 members over {call, unknown-method call, gated call, notification} with every release order of the gated handlers (2025-03-26); two concurrent gated calls in both completion orders (also on stateful endpoints with an idle SessionTimeout and timeout-1s / timeout+1s passing between the two completions); a duplicate in-flight id; a peer cancellation (notifications/cancelled) of an in-flight call, alone, followed by another call, and inside 2025-03-26 batches with every release order (the cancelled call is still answered exactly once and its batch still completes): on the in-memory pipe (stdio framing), the streamable handler stateful/stateless x SSE/JSON and the legacy HTTP+SSE handler (single messages only), every call gets exactly one response with the identical id token and the mandated class (result, -32601, -32602, -32600 or an HTTP 4xx pre-validation), notifications get none, and a final ping is still answered",
         "note": "batches are not sent over the legacy HTTP+SSE transport (its POST endpoint accepts one message and answers anything else 400); messages are single-line JSON; ids outside the listed tokens are outside the bound",
         "parts": [
             {"pkg": "mcp", "mode": "plain", "test": "TestVerifC02", "shards": 16},
@@ -59,7 +59,7 @@ PROPS = {
         "level": "model_checking",
         "uses_vsched": True,
         "technique": "stateless model checking under a controlled scheduler: Close/Wait threads x in-flight gated handlers x outgoing calls x late traffic x EOF x a write failure at every write index, delay-bounded schedules; deadlock/leak/panic oracles",
-        "claim": "on every explored execution no handler starts for a request handed over after the close was recorded, such calls get the closing error, running handlers finish before the transport is closed, Close and Wait return, nothing is left running (bubble exit), no panic",
+        "claim": "on every explored execution no handler starts for a request handed over after the close was recorded, such calls get the closing error, running handlers finish before the transport is closed, Close and Wait return, nothing is left running (bubble exit), no panic; a streamable HTTP session closed (DELETE or ServerSession.Close) while one POST with a 12-call batch, or three POSTs with 4 calls each, is being handed to it: every HTTP exchange ends, Close returns, the session is forgotten",
         "note": "handlers return (gates are opened by the idle-priority controller) and the transport honours Close, as the property presumes; bounded budgets",
         "parts": [
             {"pkg": "internal/jsonrpc2", "mode": "instr", "test": "TestVerifC05", "scenario_prefix": "a/", "two_phase": True, "time_s": {"thorough": 1800}},
@@ -73,7 +73,7 @@ PROPS = {
         "level": "fault_enumeration",
         "engine": "explore (choice-tree DFS over environment answers)",
         "technique": "exhaustive enumeration of environment answers at every step of the real Authorize flow (scripted http.Client and AuthorizationCodeFetcher): all paths with <=2 (thorough 3) non-default answers, crossed with the full product of client configuration x authorization result x token answer; a monitor judges every execution",
-        "claim": "challenge (5 forms) x protected-resource metadata answers at each of the three locations (ok, resource mismatch, http / javascript: / empty authorization_servers, 404, 500, wrong content type) x authorization-server metadata answers at each location (ok, issuer mismatch, no PKCE, http token endpoint, data:/javascript: fields incl. javascript: with a loopback authority, 404, 500) x registration answers x {CIMD, pre-registered with matching/other/no issuer, DCR} x returned state (ok, two mismatches) x returned iss (absent, matching, other) x iss support x token endpoint (200/400/500): every request goes to an https or loopback URL, the user is never sent to a script-scheme URL, the code is exchanged only with a matching state and a passing RFC 9207 check and never at endpoints of metadata that must be rejected, pre-registered credentials never reach another issuer, and an error (or failed check) leaves the token source unchanged",
+        "claim": "challenge (5 forms) x protected-resource metadata answers at each of the three locations (ok, resource mismatch, http / javascript: / empty authorization_servers, 404, 500, wrong content type) x authorization-server metadata answers at each location (ok, issuer mismatch, no PKCE, http token endpoint, data:/javascript: fields incl. javascript: with a loopback authority, 404, 500) x registration answers x {CIMD, pre-registered with matching/other/no issuer, DCR} x returned state (ok, two mismatches) x returned iss (absent, matching, other) x iss support x token endpoint (200/400/500): every request goes to an https or loopback URL, the user is never sent to a script-scheme URL, the code is exchanged only with a matching state and a passing RFC 9207 check and never at endpoints of metadata that must be rejected, pre-registered credentials never reach another issuer, and an error (or failed check) leaves the token source unchanged; two rounds on one handler (the second 401 naming the same or another valid authorization server, state echoed or altered) x client configuration: pre-registered credentials bound to the first server are not presented to the second, a failed second round keeps the first token",
         "note": "more than 2 (3) simultaneous faulty answers and TLS-level behaviour are outside the bound; URLs are judged by scheme/host as the client would dial them",
         "parts": [
             {"pkg": "auth", "mode": "plain", "test": "TestVerifC15", "two_phase": True},
@@ -84,7 +84,7 @@ PROPS = {
         "level": "model_checking",
         "engine": "explore (bounded-exhaustive enumeration)",
         "technique": "bounded-exhaustive enumeration of schema family x argument objects (and output types x handler returns) on a real session, against an independent reference validator written for exactly that family",
-        "claim": "11 input schemas (required/optional, defaults, enums, integer bounds, nested object, defaults on properties of a nested object, array items, additionalProperties false/true) x every argument object over per-field alphabets (missing, null, wrong type, below/at/above bounds, not in enum, non-integral, undeclared and case-variant extra keys): the handler runs iff the reference validator accepts the defaulted arguments and then sees exactly those values; otherwise a tool error and no handler run. 8 output shapes (struct, pointer incl. nil, map incl. nil, slice, int, explicit schema with bound+default, explicit schema with a default inside a nested object, any) x returns x own-content: structuredContent equals the JSON of the output with defaults, text rendering present when the handler supplied no content, schema-violating output is an error",
+        "claim": "11 input schemas (required/optional, defaults, enums, integer bounds, nested object, defaults on properties of a nested object, array items, additionalProperties false/true) x every argument object over per-field alphabets (missing, null, wrong type, below/at/above bounds, not in enum, non-integral, undeclared and case-variant extra keys): the handler runs iff the reference validator accepts the defaulted arguments and then sees exactly those values; otherwise a tool error and no handler run. 8 output shapes (struct, pointer incl. nil, map incl. nil, slice, int, explicit schema with bound+default, explicit schema with a default inside a nested object, any) x returns x own-content: structuredContent equals the JSON of the output with defaults, text rendering present when the handler supplied no content, schema-violating output is an error; the whole family once more on a server with a SchemaCache on which tools with inferred schemas for the same Go types were registered first",
         "note": "JSON Schema features outside the family (refs, oneOf, patterns, nested defaults, floats) are not covered; the reference validator is 100 lines written from the JSON Schema semantics of these keywords",
         "parts": [
             {"pkg": "mcp", "mode": "plain", "test": "TestVerifC16", "shards": 8},
@@ -96,7 +96,7 @@ PROPS = {
         "engine": "explore (choice-tree DFS, sequential)",
         "technique": "exhaustive choice-tree enumeration of listing traversals with interleaved mutations on real client/server sessions (plus bounded enumeration of malformed/stale cursors)",
         "claim": "for tools, prompts, resources and resource templates x page size 1..6 and math.MaxInt x all 32 initial subsets of 5 names x every placement of <=2 add/remove/replace mutations in the gaps between page fetches (two in the same gap included): items come in one strictly increasing order, items registered throughout appear exactly once, nothing unregistered is listed, traversal ends with an empty cursor, page size respected; without mutation the exact set is listed and the client iterator yields the same sequence; malformed cursors get -32602 and the server keeps answering; a stale cursor continues after its position",
-        "note": "5 names, page sizes 1..6 and MaxInt, <=2 mutations per traversal; sessions are long-lived per (kind,page size), so states are reached from many predecessor states, not only the initial one",
+        "note": "5 names (one of them the empty string for prompts), page sizes 1..6 and MaxInt, <=2 mutations per traversal; sessions are long-lived per (kind,page size), so states are reached from many predecessor states, not only the initial one",
         "parts": [
             {"pkg": "mcp", "mode": "plain", "test": "TestVerifC17", "gomaxprocs": 2},
         ],
@@ -106,13 +106,14 @@ PROPS = {
         "level": "model_checking",
         "uses_vsched": True,
         "technique": "stateless model checking of a server with three real sessions under a controlled scheduler with owned timers: bursts x debounce-timer placements (time deviations) x schedules; plus an explicit-state search over subscribe/unsubscribe/update/close histories",
-        "claim": "(E1) legacy session, 2026-07-28 session with a matching subscriptions/listen and one without: for every burst of 1-3 add/remove changes, every placement of the 10ms debounce timer and every schedule within the budget, each entitled session receives a tools/list_changed after the last change whose handler-time tools/list equals the final server state, unentitled sessions and a server with the capability disabled send none, a list after the handled notification is never an older cached answer (TTL 0 and 60s, with a list call in flight across the change), a session whose peer stopped draining or whose transport fails during the fan-out does not deprive the other sessions of their notification (either connection order), closed sessions leave no subscription; (E2) all histories up to the depth over subscribe/unsubscribe/resource-updated/close for two legacy and one modern session: resources/updated reaches exactly the currently subscribed sessions",
+        "claim": "(E1) legacy session, 2026-07-28 session with a matching subscriptions/listen and one without: for every burst of 1-3 add/remove changes, every placement of the 10ms debounce timer and every schedule within the budget, each entitled session receives a tools/list_changed after the last change whose handler-time tools/list equals the final server state, unentitled sessions and a server with the capability disabled send none, a list after the handled notification is never an older cached answer (TTL 0 and 60s, with a list call in flight across the change), a session whose peer stopped draining or whose transport fails during the fan-out does not deprive the other sessions of their notification (either connection order), closed sessions leave no subscription; (E2) all histories up to the depth over subscribe/unsubscribe/resource-updated/close for two legacy and one modern session: resources/updated reaches exactly the currently subscribed sessions; every feature kind (tools, prompts, resources, resource templates) x {legacy, 2026-07-28} x TTL {0, 60s}: add/remove/add each announced and visible to the next list; the read cache after resources/updated; independence of a session's listens (unsubscribing one resource ends neither the other resource subscription nor the list-changed subscriptions); all histories of depth <=6 (thorough 8) over {session connects, oldest session closes, tool added/removed, 5ms pass, 20ms pass}: one second later every live session has handled a notification at least as late as the last change made while it was connected",
         "note": "three sessions, one URI, bursts of <=3 changes; budgets B<=1 (quick) / 2 (thorough)",
         "parts": [
             {"pkg": "mcp", "mode": "instr", "test": "TestVerifC18", "scenario_prefix": "burst/", "two_phase": True, "time_s": {"thorough": 1800}},
             {"pkg": "mcp", "mode": "race", "test": "TestVerifC18", "scenario_prefix": "free-race/", "free_runs": {"quick": 60, "thorough": 600}},
             {"pkg": "mcp", "mode": "plain", "test": "TestVerifC18Resources", "scenario_prefix": "resource-", "shards": 1, "gomaxprocs": 16, "time_s": {"quick": 120, "thorough": 1200}},
             {"pkg": "mcp", "mode": "plain", "test": "TestVerifC18Kinds", "scenario_prefix": "kinds-", "shards": 1},
+            {"pkg": "mcp", "mode": "plain", "test": "TestVerifC18Churn", "scenario_prefix": "session-churn", "shards": 1, "gomaxprocs": 16, "time_s": {"quick": 120, "thorough": 1200}},
         ],
         "assumptions": E1_ASSUME,
     },
@@ -120,7 +121,7 @@ PROPS = {
         "level": "model_checking",
         "engine": "explore (bounded-exhaustive enumeration)",
         "technique": "bounded-exhaustive enumeration of messages/values/byte strings through the real codec and framing, with round-trip and no-panic oracles",
-        "claim": "(a) 15 id tokens (incl. +-2^53, +-(2^53+1), int64 min/max, empty/unicode/NUL strings) x methods x a JSON value grammar (16 leaves, nesting depth 2) as params, results and error data, plus payloads of 4000 bytes .. 1 MiB around the 4 KiB / 64 KiB reader-buffer boundaries: Decode then Encode preserves id type and exact value, method, params, result, error code/message/data, and is a fixpoint; (b) every such payload through SSE writeEvent/scanEvents and through a pair of newline-delimited ioConns; (c) every content kind incl. _meta/annotations and all ordered pairs of nested content inside tool_result round-trip; required members (list arrays, content, text, data, mimeType, messages, contents, completion.values) are present and non-null on the wire end to end; (d) wrongly-cased member names are not accepted; (e) every byte string up to length 5 (thorough 6) over a 12-byte JSON-significant alphabet into DecodeMessage, readBatch, scanEvents, CallToolResult.UnmarshalJSON: no panic",
+        "claim": "(a) 15 id tokens (incl. +-2^53, +-(2^53+1), int64 min/max, empty/unicode/NUL strings) x methods x a JSON value grammar (16 leaves, nesting depth 2) as params, results and error data, plus payloads of 4000 bytes .. 1 MiB around the 4 KiB / 64 KiB reader-buffer boundaries: Decode then Encode preserves id type and exact value, method, params, result, error code/message/data, and is a fixpoint; (b) every such payload through SSE writeEvent/scanEvents and through a pair of newline-delimited ioConns; (c) every content kind incl. _meta/annotations and all ordered pairs of nested content inside tool_result round-trip; required members (list arrays, content, text, data, mimeType, messages, contents, completion.values) are present and non-null on the wire end to end; (d) wrongly-cased member names are not accepted, also when they accompany the real members (before or after them) for small and >= 2^53 ids; (e) every byte string up to length 5 (thorough 6) over a 12-byte JSON-significant alphabet into DecodeMessage, readBatch, scanEvents, CallToolResult.UnmarshalJSON: no panic",
         "note": "values outside the grammar/alphabet and longer inputs are outside the bound; a response whose result is JSON null is treated as not well-formed",
         "parts": [
             {"pkg": "mcp", "mode": "plain", "test": "TestVerifC19", "shards": 16},
@@ -140,7 +141,7 @@ PROPS = {
     "C06": {
         "level": "model_checking",
         "technique": "explicit-state search over raw wire message histories against a real ServerSession, with a reference lifecycle-gate model checked after every message",
-        "claim": "all sequences (exhaustive up to the shallow depth, state-deduplicated beyond) over a 19-message alphabet (initialize variants, initialized, ping, cancelled, legacy and 2026-07-28 list/call with complete/incomplete/unsupported/invalid metadata, discover, setLevel, subscribe, roots-changed, removed methods) are sent over the in-memory pipe; per message the response class/code, the methods reaching the handler layer (receiving middleware), user-handler invocation counts and session state are compared with the reference gate",
+        "claim": "all sequences (exhaustive up to the shallow depth, state-deduplicated beyond) over a 19-message alphabet (initialize variants, initialized, ping, cancelled, legacy and 2026-07-28 list/call with complete/incomplete/unsupported/invalid metadata, discover, setLevel, subscribe, roots-changed, removed methods) are sent over the in-memory pipe; per message the response class/code, the methods reaching the handler layer (receiving middleware), user-handler invocation counts and session state are compared with the reference gate; a second search drives the stateful streamable handler with POSTs (initialize, initialized, legacy list/call with and without session id, calls carrying complete/incomplete 2026-07-28 _meta with the version header absent / legacy / modern, discover): a request reaches the feature handlers iff it is a legacy request on the session that went through initialize, and no other request leaves an initialized session behind",
         "note": "message alphabet fixed (one representative per class); histories beyond the stated depth are outside the bound; deduplication key = (InitializeParams version, InitializedParams present, log level)",
         "parts": [
             {"pkg": "mcp", "mode": "plain", "test": "TestVerifC06", "shards": 1, "gomaxprocs": 16, "time_s": {"quick": 150, "thorough": 1500}, "scenario_prefix": "wire-"},
@@ -165,7 +166,7 @@ PROPS = {
     "C08": {
         "level": "model_checking",
         "technique": "explicit-state search over write/cut/resume histories against the real streamable HTTP handler (served in-process, streaming bodies) with a recording event store as ground truth",
-        "claim": "for a request stream (protocol 2025-06-18 and 2025-11-25 with priming event) and the standalone stream: all histories (exhaustive to the shallow depth, state-deduplicated beyond) over {server writes the next of 3 notifications and the final response, client cuts the attached exchange, client resumes with the id of any event issued so far (5 positions), a second concurrent resume}: every exchange delivers, from its resume point on, exactly the messages appended to the stream in append order with ids stream_k increasing by one, ids denote the same payload on every delivery, an attached exchange is caught up at quiescence, a concurrent resume is refused with 409, and after any history the whole stream (incl. the final response) is obtainable by one more resume; (E1) a server write racing a resuming GET on the detached stream under the controlled scheduler: the resumed exchange carries exactly the messages appended after its resume point, ids consecutive, payloads in append order",
+        "claim": "for a request stream (protocol 2025-06-18 and 2025-11-25 with priming event) and the standalone stream: all histories (exhaustive to the shallow depth, state-deduplicated beyond) over {server writes the next of 3 notifications and the final response, client cuts the attached exchange, client resumes with the id of any event issued so far (5 positions), a second concurrent resume}: every exchange delivers, from its resume point on, exactly the messages appended to the stream in append order with ids stream_k increasing by one, ids denote the same payload on every delivery, an attached exchange is caught up at quiescence, a concurrent resume is refused with 409, and after any history the whole stream (incl. the final response) is obtainable by one more resume; (E1) a server write racing a resuming GET on the detached stream under the controlled scheduler: the resumed exchange carries exactly the messages appended after its resume point, ids consecutive, payloads in append order; likewise when the handler closes its own SSE stream (CloseSSEStream) while the client, still holding the POST, already resumes (the resume is refused with 409 or served, and a served resume receives everything written later)",
         "note": "one request stream with 4 messages; purge/eviction of the event store is covered by C20, not here; concurrent Write vs. serveGET interleavings below the request level are not explored (requests are run to quiescence)",
         "parts": [
             {"pkg": "mcp", "mode": "plain", "test": "TestVerifC08", "shards": 1, "gomaxprocs": 16, "time_s": {"quick": 150, "thorough": 1500}, "scenario_prefix": "re"},
@@ -189,7 +190,7 @@ PROPS = {
         "level": "model_checking",
         "uses_vsched": True,
         "technique": "stateless model checking of the real streamable HTTP handler under a controlled scheduler: concurrent POSTs of two sessions, every handler release order, delay-bounded schedules; every exchange's bytes attributed to its request",
-        "claim": "two sessions (same JSON-RPC ids in both) x two concurrent tools/call POSTs each, each handler sending a request-scoped progress notification and then parking on a gate released in every order, stateful SSE/JSON and stateless, plus each session's standalone stream: on every explored schedule each exchange carries exactly the response (and request-scoped notifications) of its own request, standalone streams carry only their own session's notifications and never a response; a duplicate in-flight id on one session never makes a response travel on the other POST's exchange; request A's exchange cut while its handler runs, then a sequential POST B reusing A's id (with and without an event store): B's exchange never carries A's response",
+        "claim": "two sessions (same JSON-RPC ids in both) x two concurrent tools/call POSTs each, each handler sending a request-scoped progress notification and then parking on a gate released in every order, stateful SSE/JSON and stateless, plus each session's standalone stream: on every explored schedule each exchange carries exactly the response (and request-scoped notifications) of its own request, standalone streams carry only their own session's notifications and never a response; a duplicate in-flight id on one session never makes a response travel on the other POST's exchange; request A's exchange cut while its handler runs, then a sequential POST B reusing A's id (with and without an event store): B's exchange never carries A's response; server-to-client requests issued by two concurrent handlers (sampling): each request travels on its own call's exchange (the standalone stream in JSON mode), each handler gets the reply to its own request in either answer order, and the cancellation notice of an abandoned request travels where the request travelled (with and without a standalone stream attached)",
         "note": "two sessions, two requests per session; budgets B<=1 (quick) / 2 (thorough), B<=2/3 for the duplicate-id scenarios; resumed streams are covered by C08",
         "parts": [
             {"pkg": "mcp", "mode": "instr", "test": "TestVerifC10", "two_phase": True, "time_s": {"thorough": 1800}},
@@ -200,7 +201,7 @@ PROPS = {
     "C11": {
         "level": "model_checking",
         "technique": "explicit-state search over request histories against the real stateful handler under virtual time, with a reference session table checked after every step",
-        "claim": "all histories (exhaustive up to the shallow depth, state-deduplicated beyond) over 38 operations - POST initialize as anonymous/u1/u2, POST tools/call / GET / DELETE with each issued (live or dead) or an unknown session id as each user, a POST that stays in flight, handler release, server-side close, DELETE / server-side close while a POST is in flight (they wait; a second DELETE may overlap; an acknowledged 204 makes the id dead at once), advances of timeout-1ms / 1ms / timeout: statuses (404 once dead for every method, 403 for a foreign user with no effect, 200/204 otherwise), ids minted only by initialize and never reissued, Server.Sessions() and the handler's table equal the reference set after every step, idle timeout fires iff a session had no POST in progress for a full timeout; stateless endpoint: no session ids issued or honoured, GET/DELETE/PUT answered 405",
+        "claim": "all histories (exhaustive up to the shallow depth, state-deduplicated beyond) over 38 operations - POST initialize as anonymous/u1/u2, POST tools/call / GET / DELETE with each issued (live or dead) or an unknown session id as each user, a POST that stays in flight, handler release, server-side close, DELETE / server-side close while a POST is in flight (they wait; a second DELETE may overlap; an acknowledged 204 makes the id dead at once), advances of timeout-1ms / 1ms / timeout: statuses (404 once dead for every method, 403 for a foreign user with no effect, 200/204 otherwise), ids minted only by initialize and never reissued, Server.Sessions() and the handler's table equal the reference set after every step, idle timeout fires iff a session had no POST in progress for a full timeout; the same search one level shallower with an event store whose SessionClosed fails at teardown; stateless endpoint: no session ids issued or honoured, GET/DELETE/PUT answered 405",
         "note": "two sessions, two users; requests other than DELETE/close on a session whose deletion is pending but not yet acknowledged are not constrained (skipped); histories beyond the stated depth are outside the bound",
         "parts": [
             {"pkg": "mcp", "mode": "plain", "test": "TestVerifC11", "shards": 1, "gomaxprocs": 16, "time_s": {"quick": 150, "thorough": 1500}},
@@ -211,7 +212,7 @@ PROPS = {
         "level": "model_checking",
         "engine": "explore (bounded-exhaustive enumeration)",
         "technique": "bounded-exhaustive enumeration of requests (all combinations of <=2 deviations from a valid base per endpoint kind) and of schema x argument values, on the real handlers and the real client transport over a wire-faithful in-process round trip, against a reference predicate of the documented preconditions",
-        "claim": "(a) three endpoint kinds (stateless 2026-07-28, stateful legacy, SSE message endpoint) x every combination of <=2 deviations over Host/listener address, Content-Type (7 forms), Accept (8), body size around the limit (with Content-Length and with chunked transfer encoding), protocol-version header, Mcp-Method/Mcp-Name/Mcp-Param-* (absent, different, case-variant, base64-wrapped, malformed base64) and _meta version: the message reaches the server iff no precondition is violated; otherwise a 4xx (403 host, 415 content type, 413 size, -32020 for header mismatches) and nothing dispatched; (b) x-mcp-header annotations at nesting depth 1..5 with annotated siblings x 14 string values (empty, padded, non-ASCII, control, sentinel-looking), safe-range integers, booleans, absent members: every call made through the SDK client is accepted and the tool sees exactly the arguments sent",
+        "claim": "(a) three endpoint kinds (stateless 2026-07-28, stateful legacy, SSE message endpoint) x every combination of <=2 deviations over Host/listener address, Content-Type (7 forms), Accept (8), body size around the limit (with Content-Length and with chunked transfer encoding), protocol-version header, Mcp-Method/Mcp-Name/Mcp-Param-* (absent, different, case-variant, base64-wrapped, malformed base64) and _meta version: the message reaches the server iff no precondition is violated; otherwise a 4xx (403 host, 415 content type, 413 size, -32020 for header mismatches) and nothing dispatched; (b) x-mcp-header annotations at nesting depth 1..5 with annotated siblings x 14 string values (empty, padded, non-ASCII, control, sentinel-looking), safe-range integers, booleans, absent members: every call made through the SDK client is accepted and the tool sees exactly the arguments sent; (c) one handler receiving 2-3 connections on different local addresses (127.0.0.1, [::1], a LAN address) with loopback and foreign Host values in every order: each request is judged by the address it arrived on",
         "note": "requests are parsed with http.ReadRequest from raw text and client requests are serialised/re-parsed, so header trimming/canonicalisation is the real wire behaviour; more than 2 simultaneous deviations and values outside the alphabets are outside the bound; null-valued annotated arguments are not schema-valid and not enumerated",
         "parts": [
             {"pkg": "mcp", "mode": "plain", "test": "TestVerifC12", "shards": 16},
@@ -233,7 +234,7 @@ PROPS = {
         "level": "model_checking",
         "engine": "explore (bounded-exhaustive product)",
         "technique": "bounded-exhaustive enumeration of the full input/configuration product on the real middleware against a reference predicate (fixed virtual clock)",
-        "claim": "the full product of 17 Authorization header shapes x 5 verifier outcomes x 3 required x 5 granted scope sets x 7 expirations (incl. the exact skew boundary +-1ns) x 2 skews x AllowMissingExpiration x nil/non-nil options x metadata URL is run through RequireBearerToken under a synctest bubble's fixed clock, each request three times through one middleware with the verifier handing out the same *TokenInfo (decisions are history-independent, the TokenInfo reaches the handler unaltered); handler-ran must equal the reference conjunction, TokenInfo identity, status legal for the causes present, challenge contents on 401/403",
+        "claim": "the full product of 17 Authorization header shapes x 5 verifier outcomes x 3 required x 5 granted scope sets x 7 expirations (incl. the exact skew boundary +-1ns) x 2 skews x AllowMissingExpiration x nil/non-nil options x metadata URL is run through RequireBearerToken under a synctest bubble's fixed clock, each request three times through one middleware with the verifier handing out the same *TokenInfo (decisions are history-independent, the TokenInfo reaches the handler unaltered); handler-ran must equal the reference conjunction, TokenInfo identity, status legal for the causes present, challenge contents on 401/403; plus every sequence of <=3 requests with different granted scope sets through one middleware with 2-3 required scopes: each is decided on its own, the challenge lists the configured scopes, the Scopes slice handed to RequireBearerToken is never altered",
         "note": "values outside the per-dimension alphabets are not covered; where the statement leaves precedence open (scope vs expiry) both statuses are accepted; a tab between scheme and token is treated as undecided",
         "parts": [
             {"pkg": "auth", "mode": "plain", "test": "TestVerifC14", "shards": 4},
